@@ -179,7 +179,7 @@ def _publish(ck, p):
             _segments_pitfall(ck, p, f, rule)
         n += 1
         ck.decide(rule, "Backend::%s" % name, ok, f.span, detail)
-    ck.floor(rule, "handler paths checked", n, 8)
+    ck.floor(rule, "handler paths checked", n, 5)
     # publish_diagnostics -> generate_diagnostics -> doc_state under the lock
     f = p.fns.get("harper_ls::backend::{impl#0}::publish_diagnostics::{closure#0}")
     g = p.fns.get("harper_ls::backend::{impl#0}::generate_diagnostics::{closure#0}")
@@ -539,7 +539,7 @@ def _close(ck, p):
             own_param = f.name.endswith("::update_document_from_file::{closure#0}") and any(o[0] in ("arg", "upvar", "field") for o in flatten(fpv.trace_operand(a)))
             if not (is_none or own_param):
                 bad.append((keyname(p, f), f.loc(t["ln"])))
-    ck.floor(rule, "callers of update_document / update_document_from_file", n, 5)
+    ck.floor(rule, "callers of update_document / update_document_from_file", n, 3)
     ck.decide(rule, "update_document:who-supplies-language-id", not bad, "", "every caller other than did_open passes None or hands on its own parameter: %s%s" % (not bad, "" if not bad else " (offending: %s)" % bad))
 
 
@@ -563,7 +563,7 @@ def _fresh(ck, p):
         for bi, t in f.calls():
             if inst_of(t) == target:
                 sites.append((f, bi, t))
-    ck.floor(rule, "callers of update_document", len(sites), 3)
+    ck.floor(rule, "callers of update_document", len(sites), 2)
     for f, bi, t in sorted(sites, key=lambda x: x[0].name):
         ck.saw(f)
         cfg = Cfg(f)
